@@ -22,6 +22,7 @@ theorem sk_client_multiplexer_RpcMultiplexer_unregisterHandler : Generated.sk_cl
 theorem sk_client_multiplexer_muxHandler_recv : Generated.sk_client_multiplexer_muxHandler_recv = Expected.sk_client_multiplexer_muxHandler_recv := by decide
 theorem sk_server_handler_serve : Generated.sk_server_handler_serve = Expected.sk_server_handler_serve := by decide
 theorem sk_server_handler_processUnaryRpc : Generated.sk_server_handler_processUnaryRpc = Expected.sk_server_handler_processUnaryRpc := by decide
+theorem sk_client_ClientConn_invoke : Generated.sk_client_ClientConn_invoke = Expected.sk_client_ClientConn_invoke := by decide
 
 theorem workers : Generated.numRpcWorkers = 8 := by decide
 /-- at the source's configuration: distinct calls have distinct ids; a caller only ever receives envelopes carrying its own id -/
